@@ -159,6 +159,7 @@ struct PlanT {
     uint64_t content_seed = 0;
     bool pairs = false; // additionally fail every pair of positions (i, j)
     bool mmap_eagain = false; // a failing mmap reports EAGAIN instead of ENOMEM
+    int stack_fill = 0;       // stale stack under every library call: 0 as left by the harness, 1 zeros, 2 the address of a tripwire buffer, 3 0xA5 bytes
     std::vector<Op> ops;
 };
 
@@ -304,10 +305,21 @@ struct Exec {
         return cr;
     }
 
+    // a pointer the library never obtained from the allocator: freeing or unmapping it is recorded by the allocator
+    // model as misuse, writing through it is seen in the buffer afterwards
+    static unsigned char *tripwire() { static unsigned char *t = (unsigned char *) calloc(1, 8192); return t; }
     CallResult armed_call(const Op &op, const Prepared &P, int64_t at, bool from, int64_t at2 = -1) {
         A.begin_call(at, from, at2);
+        if (plan.stack_fill == 1) dirty_stack(0);
+        else if (plan.stack_fill == 2) dirty_stack((uint64_t) (uintptr_t) (tripwire() + 4096));
+        else if (plan.stack_fill == 3) dirty_stack(0xA5A5A5A5A5A5A5A5ull);
         CallResult cr = call(op, P);
         A.end_call();
+        if (plan.stack_fill == 2) {
+            unsigned char acc = 0;
+            for (size_t i = 0; i < 8192; i++) acc |= tripwire()[i];
+            if (acc) { memset(tripwire(), 0, 8192); A.errors.push_back("write-through-uninitialised-pointer (a stale stack word was used as an address)"); }
+        }
         return cr;
     }
 
@@ -384,6 +396,7 @@ struct Exec {
     Result run() {
         A.mmap_errno = plan.mmap_eagain ? EAGAIN : ENOMEM;
         res.count(std::string("knob.mmap_errno=") + (plan.mmap_eagain ? "EAGAIN" : "ENOMEM"));
+        res.count("knob.stale_stack=" + std::string(plan.stack_fill == 0 ? "as-is" : plan.stack_fill == 1 ? "zeros" : plan.stack_fill == 2 ? "tripwire-pointer" : "0xA5"));
         for (size_t i = 0; i < plan.ops.size() && !res.violated; i++) { step = (int) i; do_op(plan.ops[i], i); }
         A.fired_kinds.clear();
         res.digest = dg.value();
@@ -438,6 +451,7 @@ struct C20 {
         p.content_seed = mix64(rs, 0xc20);
         p.pairs = thorough ? r.chance(1, 2) : r.chance(1, 6);
         p.mmap_eagain = r.chance(1, 3);
+        { Rng f(rs, "faults"); p.stack_fill = (int) f.pick<int>({0, 1, 2, 2, 2, 3}); }
         size_t nops = (size_t) r.range(1, 4);
         for (size_t i = 0; i < nops; i++) {
             Op op;
@@ -464,7 +478,7 @@ struct C20 {
 
     static Json to_json(const Plan &p) {
         Json j = Json::object();
-        j["knobs"] = p.pk; j["content_seed"] = p.content_seed; j["pairs"] = p.pairs; j["mmap_eagain"] = p.mmap_eagain;
+        j["knobs"] = p.pk; j["content_seed"] = p.content_seed; j["pairs"] = p.pairs; j["mmap_eagain"] = p.mmap_eagain; j["stale_stack"] = p.stack_fill;
         Json ops = Json::array();
         for (auto &o : p.ops) {
             Json q = Json::object();
@@ -478,7 +492,7 @@ struct C20 {
     }
     static Plan from_json(const Json &j) {
         Plan p;
-        p.pk = j.at("knobs"); p.content_seed = j.at("content_seed").u64(); p.pairs = j.at("pairs").boolean(); p.mmap_eagain = j.at("mmap_eagain").boolean();
+        p.pk = j.at("knobs"); p.content_seed = j.at("content_seed").u64(); p.pairs = j.at("pairs").boolean(); p.mmap_eagain = j.at("mmap_eagain").boolean(); p.stack_fill = (int) j.at("stale_stack").i64();
         for (auto &q : j.at("ops").a) {
             Op o;
             for (int i = 0; i < A_NAPI; i++) if (q.at("api").str() == api_name[i]) o.api = i;
@@ -501,6 +515,7 @@ struct C20 {
         if (p.pk.at("cpu_disable").u64() != 0) { Plan c = p; c.pk["cpu_disable"] = 0u; out.push_back(c); }
         if (p.pairs) { Plan c = p; c.pairs = false; out.push_back(c); }
         if (p.mmap_eagain) { Plan c = p; c.mmap_eagain = false; out.push_back(c); }
+        if (p.stack_fill) { Plan c = p; c.stack_fill = 0; out.push_back(c); }
         for (size_t i = 0; i < p.ops.size(); i++) {
             const Op &o = p.ops[i];
             if (o.only_pos < 0) for (int pos = 0; pos < 10; pos++) { Plan c = p; c.ops[i].only_pos = pos; out.push_back(c); }
